@@ -10,6 +10,7 @@ package main
 // domain is finite.
 
 import (
+	"os"
 	"fmt"
 	"go/token"
 	"go/types"
@@ -460,6 +461,31 @@ func (t *TS) execFn(fn *ssa.Function, args []AV, binds []AV, s *State) []outcome
 				}
 			}
 		}
+		// forget what is dead here: values of earlier loop iterations must not keep states apart
+		{
+			lv := liveIn(fn)[it.b.Index]
+			for v := range st.Env {
+				if lv[v] {
+					continue
+				}
+				if phi, ok := v.(*ssa.Phi); ok && phi.Block() == it.b {
+					continue
+				}
+				if ins, ok := v.(ssa.Instruction); ok && ins.Parent() != fn {
+					continue
+				}
+				// parameters and free variables do not change inside the activation
+				// (and request paths are resolved through them): keep
+				if _, isP := v.(*ssa.Parameter); isP {
+					continue
+				}
+				if _, isF := v.(*ssa.FreeVar); isF {
+					continue
+				}
+				delete(st.Env, v)
+				delete(st.G.Cells, resKey(v, -1))
+			}
+		}
 		k := fmt.Sprintf("%d#%s", it.b.Index, st.key())
 		if visited[k] {
 			continue
@@ -731,6 +757,14 @@ func (t *TS) useInode(s *State, in ssa.Instruction, a AV, what string) {
 
 // step executes one non-phi, non-terminator instruction.
 func (t *TS) step(s *State, in ssa.Instruction) []*State {
+	// a re-executed instruction (loop) recomputes its value: what an earlier
+	// iteration learnt about it (branch outcome, result tag) no longer holds
+	if v, ok := in.(ssa.Value); ok {
+		if _, had := s.Env[v]; had {
+			delete(s.Env, v)
+		}
+		delete(s.G.Cells, resKey(v, -1))
+	}
 	switch x := in.(type) {
 	case *ssa.Alloc:
 		// re-executed allocs reset their cells
@@ -1019,6 +1053,9 @@ func (t *TS) call(s *State, call *ssa.Call) []*State {
 				return []*State{s}
 			}
 			old := s.G.Txns[id]
+			if os.Getenv("NFSVERIF_TSDEBUG") != "" && t.entry.Name() == "NFSPROC3_SYMLINK" {
+				fmt.Fprintf(os.Stderr, "TSDEBUG acq %s %s id=%s txns=%v\n", t.c.P.Pos(call.Pos()), callee.Name(), id, s.G.Txns)
+			}
 			t.event("acquire", call, callee.Name(), id, old, old.St != "live", map[string]string{"held": fmt.Sprint(old.Holds)})
 			for oid, o := range s.G.Txns {
 				if oid != id && o.St == "live" && o.Holds {
@@ -1114,6 +1151,12 @@ func (t *TS) call(s *State, call *ssa.Call) []*State {
 				}
 			}
 			outs := t.execFn(callee, args, fav.Binds, s)
+			if os.Getenv("NFSVERIF_TSDEBUG") != "" && (callee.Name() == "getAlloc" || callee.Name() == "DoShrink") {
+				for _, o := range outs {
+					fmt.Fprintf(os.Stderr, "TSDEBUG out %s %s txns=%v res=%v\n", t.entry.Name(), callee.Name(), o.G.Txns, o.results)
+				}
+				fmt.Fprintf(os.Stderr, "TSDEBUG out %s %s n=%d undec=%v\n", t.entry.Name(), callee.Name(), len(outs), t.Undec)
+			}
 			var res []*State
 			for _, o := range outs {
 				ns := &State{G: o.G.clone(), Env: make(map[ssa.Value]AV, len(s.Env))}
@@ -1152,6 +1195,9 @@ func (t *TS) call(s *State, call *ssa.Call) []*State {
 		name = callee.Name()
 	}
 	for i, a := range args {
+		if os.Getenv("NFSVERIF_TSDEBUG") != "" && name == "Write" {
+			fmt.Fprintf(os.Stderr, "TSDEBUG %s %s arg%d K=%d txns=%v states=%v\n", t.c.P.Pos(call.Pos()), t.entry.Name(), i, a.K, a.Txns, s.G.Txns)
+		}
 		t.useInode(s, call, a, "passed to "+name)
 		if id, ok := t.txnOf(a); ok {
 			ts := s.G.Txns[id]
@@ -1248,4 +1294,91 @@ func (t *TS) argPath(s *State, v ssa.Value) (string, bool) {
 		return a.Cell, true
 	}
 	return a.Cell + "." + path, true
+}
+
+// ---------------------------------------------------------------- liveness
+
+// liveIn computes, per block of fn, the SSA values live on entry (classic
+// backward dataflow; phi operands are uses at the end of the predecessor).
+// The interpreter drops dead values from its environment at block entry so
+// that loop iterations converge to the same abstract state.
+var liveMemo = map[*ssa.Function][]map[ssa.Value]bool{}
+
+func liveIn(fn *ssa.Function) []map[ssa.Value]bool {
+	if l, ok := liveMemo[fn]; ok {
+		return l
+	}
+	n := len(fn.Blocks)
+	in := make([]map[ssa.Value]bool, n)
+	out := make([]map[ssa.Value]bool, n)
+	for i := range in {
+		in[i] = map[ssa.Value]bool{}
+		out[i] = map[ssa.Value]bool{}
+	}
+	tracked := func(v ssa.Value) bool {
+		switch v.(type) {
+		case *ssa.Const, *ssa.Function, *ssa.Global, *ssa.Builtin:
+			return false
+		}
+		return v != nil
+	}
+	changed := true
+	for changed {
+		changed = false
+		for bi := n - 1; bi >= 0; bi-- {
+			b := fn.Blocks[bi]
+			o := out[bi]
+			for _, s := range b.Succs {
+				for v := range in[s.Index] {
+					if !o[v] {
+						o[v] = true
+						changed = true
+					}
+				}
+				// phi operands of the successor for this edge
+				idx := -1
+				for i, p := range s.Preds {
+					if p == b {
+						idx = i
+					}
+				}
+				for _, ins := range s.Instrs {
+					phi, ok := ins.(*ssa.Phi)
+					if !ok {
+						break
+					}
+					if idx >= 0 && tracked(phi.Edges[idx]) && !o[phi.Edges[idx]] {
+						o[phi.Edges[idx]] = true
+						changed = true
+					}
+				}
+			}
+			live := map[ssa.Value]bool{}
+			for v := range o {
+				live[v] = true
+			}
+			for i := len(b.Instrs) - 1; i >= 0; i-- {
+				ins := b.Instrs[i]
+				if v, ok := ins.(ssa.Value); ok {
+					delete(live, v)
+				}
+				if _, isPhi := ins.(*ssa.Phi); isPhi {
+					continue
+				}
+				for _, op := range ins.Operands(nil) {
+					if *op != nil && tracked(*op) {
+						live[*op] = true
+					}
+				}
+			}
+			for v := range live {
+				if !in[bi][v] {
+					in[bi][v] = true
+					changed = true
+				}
+			}
+		}
+	}
+	liveMemo[fn] = in
+	return in
 }
